@@ -26,14 +26,19 @@ Tab(a) ==
     [] a = "mix"  -> << <<92>>, <<39>>, <<34>>, <<36>>, <<123>>, <<125>>, <<65>>, <<126>>, <<37, 103, 101, 116, 40>>, <<41>> >>
                                                                       \*  \ ' " $ { } A ~ %get( )
 EnvsOf(a) == CASE a = "til" -> {1, 2, 3} [] a = "dol2" -> {1, 3} [] a = "mix" -> {1, 2} [] OTHER -> {1}
-LenOf(a, st) == IF a = "pg" THEN (IF Len(st) = 0 THEN N ELSE IF Len(st) = 1 THEN N1 ELSE N2)
-                ELSE IF st # <<>> THEN -1
-                ELSE IF a = "call" THEN NCall ELSE N
+\* input length bound per alphabet, environment and store (-1: not offered).  The secondary environments and
+\* the paren alphabet get one symbol less (they differ from the primary ones in a single rule).
+LenOf(a, e, st) == IF a = "pg" THEN (IF Len(st) = 0 THEN N ELSE IF Len(st) = 1 THEN N1 ELSE N2)
+                   ELSE IF st # <<>> THEN -1
+                   ELSE IF a = "call" THEN NCall
+                   ELSE IF a = "dol2" \/ (a = "til" /\ e # 1) \/ (a = "mix" /\ e # 1) THEN N - 1
+                   ELSE N
 
 RECURSIVE Flat(_, _)
 Flat(ss, tab) == IF ss = <<>> THEN <<>> ELSE tab[ss[1]] \o Flat(Tail(ss), tab)
 TextsOf(a, n) == {Flat(ss, Tab(a)) : ss \in UNION {[1 .. k -> 1 .. Len(Tab(a))] : k \in 0 .. n}}
-StartsMC(st) == UNION {EnvsOf(a) \X TextsOf(a, LenOf(a, st)) : a \in {b \in Sel : LenOf(b, st) >= 0}}
+StartsMC(st) == UNION {{p[2]} \X TextsOf(p[1], LenOf(p[1], p[2], st)) :
+                        p \in {q \in {<<a, e>> : a \in Sel, e \in {1, 2, 3}} : q[2] \in EnvsOf(q[1]) /\ LenOf(q[1], q[2], st) >= 0}}
 
 AppNameMC == <<97, 112>>          \* "ap"
 AppVersionMC == <<49, 46, 50>>    \* "1.2"
